@@ -222,9 +222,14 @@ func programForKinds(cfg string, rng *rand.Rand, workers int, kinds []string) Pr
 
 // simulate asks TLC for random behaviours of an MCSched configuration.
 func simulate(c *core.Ctx, cfgFile string, num, depth int, seed int64) [][]Step {
+	return SimulateModule(c, "MCSched", cfgFile, num, depth, seed)
+}
+
+// SimulateModule asks TLC for random behaviours of a specification.
+func SimulateModule(c *core.Ctx, module, cfgFile string, num, depth int, seed int64) [][]Step {
 	tmp, _ := os.MkdirTemp("", "vsim-")
 	defer os.RemoveAll(tmp)
-	r, err := core.RunTLC(core.TLCOpts{Module: "MCSched", Cfg: cfgFile, Workers: 1, Timeout: 3 * time.Minute,
+	r, err := core.RunTLC(core.TLCOpts{Module: module, Cfg: cfgFile, Workers: 1, Timeout: 3 * time.Minute,
 		Args: []string{"-simulate", fmt.Sprintf("file=%s/b,num=%d", tmp, num), "-depth", fmt.Sprint(depth), "-seed", fmt.Sprint(seed)}})
 	if err != nil || r == nil {
 		c.Inconclusive("TLC simulation of %s failed: %v", cfgFile, err)
